@@ -146,10 +146,10 @@ func (e *expEntry) apply(rrs []g.RefRR) (updated, reject, skip bool) {
 			}
 			ip, err := netip.ParseAddr(s)
 			if err != nil || !ip.Is4() {
-				if err == nil {
-					return updated, false, true
-				}
-				return updated, true, false
+				// not an IPv4 reverse name (ip6.arpa nibble name, DNS-SD service PTR, any other owner): a
+				// well-formed record the table does not use — it contributes nothing and must not make
+				// the message fail
+				continue
 			}
 			if r.TClass != g.OK {
 				return updated, true, false
@@ -376,6 +376,19 @@ func Eval(c *core.Ctx, line string) *core.Case {
 		impl := dnsimpl.DecodeQuestion(msg, idx)
 		return &core.Case{Line: line, Impl: impl, Cmp: cmpQuestion, Trivial: len(msg) < 12 || idx < 0 || idx+5 > len(msg),
 			Oracle: func() (string, string) { return questionOracle(msg, idx, impl) }}
+	case "dns.answers0":
+		// the exported DecodeAnswers on the zero DNSEntry (nil maps); same model and oracle as dns.answers
+		if len(f) != 3 {
+			return nil
+		}
+		off, err := strconv.Atoi(f[1])
+		if err != nil {
+			return nil
+		}
+		msg := core.UnHex(f[2])
+		impl := dnsimpl.DecodeAnswersZero(off, msg)
+		return &core.Case{Line: line, Impl: impl, Trivial: off < 0 || off >= len(msg),
+			Oracle: func() (string, string) { return rrsOracle(msg, off, -1, impl) }}
 	case "dns.rrs", "dns.answers":
 		var msg []byte
 		var off, count int
@@ -411,6 +424,7 @@ func Eval(c *core.Ctx, line string) *core.Case {
 		}
 		impl, tbl, ok := dnsimpl.Process(ps)
 		if !ok {
+			c.Why = "a payload does not fit an Ethernet frame / is not parsed as DNS by Session.Parse"
 			return nil
 		}
 		return &core.Case{Line: line, Impl: impl, Trivial: strings.HasPrefix(impl, "err:ErrFrameLen tbl="),
@@ -453,7 +467,7 @@ func Eval(c *core.Ctx, line string) *core.Case {
 		}
 		var res, again NE
 		var mod, mod2 bool
-		r := dnsimpl.Guard(func() string {
+		r := dnsimpl.GuardOp("merge", func() string {
 			x, m := a.toPacket().Merge(b.toPacket())
 			y, m2 := x.Merge(b.toPacket())
 			res, mod, again, mod2 = fromPacket(x), m, fromPacket(y), m2
@@ -499,7 +513,7 @@ func evalHostUpd(line string, src int, dirty bool, hs, ms [5]NE, n NE) *core.Cas
 	// state after a second identical update with the flag cleared in between (idempotence)
 	var host3, mac3 [5]NE
 	var dirty3 bool
-	r := dnsimpl.Guard(func() string {
+	r := dnsimpl.GuardOp("merge", func() string {
 		h = &packet.Host{MACEntry: &packet.MACEntry{}}
 		for i, s := range slots(h) {
 			*s = hs[i].toPacket()
